@@ -27,6 +27,7 @@ class Gate:
         self.released = set()
         self.finished = set()
         self.stuck = False
+        self.drain = False          # the enforced order is exhausted: whatever else starts runs freely
         self.closed = False
         self.thread = None
         if self.order is not None or rng is not None:
@@ -40,7 +41,7 @@ class Gate:
             self.cv.notify_all()
             if self.order is None and self.rng is None:
                 return
-            while i not in self.released and not self.stuck and not self.closed:
+            while i not in self.released and not self.stuck and not self.closed and not self.drain:
                 self.cv.wait(0.05)
 
     def on_finish(self, i):
@@ -69,6 +70,9 @@ class Gate:
                             self.stuck = True
                             self.cv.notify_all()
                             return
+            with self.cv:
+                self.drain = True
+                self.cv.notify_all()
         else:
             # random schedule: repeatedly release one of the currently held tasks
             while not self.closed:
